@@ -37,6 +37,9 @@ def lines_pool():
         for x0, x1 in ((15, 35), (15, 105), (-20, 150), (45, 75), (85, 108), (120, 180), (205, 250), (60, 61), (25, 150), (-20, 95)):
             out.append([[x0, y], [x1, y]])
     out += [[[0, 0], [120, 120]], [[20, 100], [100, 20]], [[15, 15], [60, 40], [105, 20]], [[20, 20], [20, 100]]]
+    # baselines with a small back-step: baseline_to_textline gives a self-intersecting (invalid) outline for them, which the
+    # assignment has to repair without losing the part of the outline that covers the baseline
+    out += [[[15, 60], [80, 60], [70, 64], [105, 64]], [[15, 60], [60, 60], [50, 70], [105, 70]]]
     return out
 
 
@@ -66,6 +69,14 @@ def check_assign(np, sg, layout, helpers, region_names, line_idx):
                 bad.append(('placed-line-inside-region', 'line %s baseline %r leaves region %s' % (l.id, np.asarray(l.baseline).tolist(), r.id)))
             if not rp.buffer(1e-6).contains(sg.Polygon(l.polygon)):
                 bad.append(('outline-clipped', 'line %s outline is not inside region %s' % (l.id, r.id)))
+            # the stored outline is the detected outline clipped to the region: it still covers the stored baseline (the detected
+            # outline is built around the baseline: ascender above, descender below) up to the clipping at the region border
+            # (checked for lines that lie wholly inside the region: for a line crossing a concave region several times the kept outline
+            # piece — largest area — and the kept baseline piece — longest — are chosen independently)
+            op = sg.Polygon(l.polygon)
+            if op.is_valid and rp.buffer(-1e-9).contains(sg.LineString(bl[int(l.id.split('-l')[1]) - 1])) and not op.buffer(1.0).contains(base):
+                bad.append(('outline-covers-baseline', 'line %s: stored outline (area %.0f) does not cover its own baseline %r'
+                            % (l.id, op.area, np.asarray(l.baseline).round(1).tolist())))
             src = int(l.id.split('-l')[1]) - 1
             if not sg.LineString(bl[src]).buffer(1e-6).contains(base):
                 bad.append(('piece-of-detected-baseline', 'line %s is not a piece of detected baseline %d' % (l.id, src)))
